@@ -145,6 +145,9 @@ PROPS = {
         family="eco", mc=[], level="exploration",
         parts=[
             dict(family="eco", mc=[], inv=[], step=[], tinv=["T_C17_Lists", "T_C17_Singles"], observers="query"),
+            dict(family="data", mc_module="MC_Data", trace_module="TraceData", mc=[], inv=[], step=[],
+                 tinv=["T_C17_Lists", "T_C17_Singles"], observers="query",
+                 gen=[("data_inj_q", 16, 25), ("data_buckets_q", 8, 25)], gen_t=[("data_inj_q", 120, 30), ("data_buckets_q", 80, 30)]),
         ],
     ),
     "C04": dict(
